@@ -150,6 +150,11 @@ func SetUnwind(n int) {}
 // NoTimers: virtual timers never fire on this path.
 func NoTimers() {}
 
+// TimersFireTogether: all virtual timers that are due at the same instant
+// fire before any goroutine runs again (default: one at a time, in creation
+// order, each followed by running everything to quiescence).
+func TimersFireTogether(on bool) {}
+
 // AnyMapOrder makes map iteration explore every order (<= 4 entries).
 func AnyMapOrder(on bool) {}
 
